@@ -7,6 +7,12 @@ TRUSTED_BASE = [
 ]
 
 PROPS = {
+    "C05": dict(
+        assumptions=["role managers without matching functions (plain RoleManagerImpl, per-domain DomainManager); pattern-matching and conditional managers are exercised by the correspondence run only (model PatternRM, no theorem yet)",
+                     "hypotheses WFState/opWF: grouping rules of the definition's arity with comma-free fields, role definitions with two or three places (a plain manager exactly for two places), updates to fresh rules; what they exclude are recorded findings (arity is never checked for g; UpdatePolicy to a listed rule duplicates)"],
+        trusted=["modelled: internal_api.go (all *WithoutNotify + notify wrappers), enforcer.go (ClearPolicy, BuildRoleLinks, BuildIncrementalRoleLinks, LoadPolicy, SavePolicy), model/assertion.go (buildRoleLinks, buildIncrementalRoleLinks with truncation to the definition's arity), RoleManagerImpl/DomainManager AddLink/DeleteLink/HasLink/GetRoles/GetUsers/Clear",
+                 "the adapter and watcher of the model are the harness's recording adapter/watcher; the theorems hold for every adapter state incl. armed faults"],
+    ),
     "C14": dict(
         assumptions=["the underlying enforcer is abstract: every Enforce event carries the answer the embedded enforcer gives at that moment (read by the harness through the embedded enforcer immediately before the cached call)",
                      "the wall clock is an oracle: `tick n` advances the model's clock, the harness sleeps for real (300 ms lifetime, 400 ms ticks; a case is abandoned if the machine stalls)",
@@ -48,6 +54,7 @@ PROPS = {
 }
 
 LEVEL_TEXT = {
+    "C05": "Proved in Lean by invariant: from a well-formed state in which every role manager holds exactly the links of the grouping rules listed for its definition, every management call (single, batch, Ex, update, batch update, filtered removal on p or g), ClearPolicy and BuildRoleLinks leads to such a state again, whatever the adapter (incl. failing calls) and watcher do (mirror_step, mirror_hist); hence HasLink holds exactly for roles reachable within the hierarchy depth through the rules listed for that domain (hasLink_iff_listed_reach), equals the g() of the PERM reference (hasLink_eq_specLink), answers like a manager rebuilt from GetGroupingPolicy alone (answers_like_rebuild), and links never leak between domains or role definitions. Tie: all histories of depth <=3 (quick) / <=4 (thorough) over 19 grouping calls incl. ClearPolicy/LoadPolicy/SavePolicy for plain, domain and two-definition models, HasLink/GetRoles/GetUsers over the whole universe after every call, plus random histories with over-long rules.",
     "C14": "Proved in Lean for every history of calls, every request tuple (arbitrary byte strings incl. the separator, cacheable and uncacheable parameters) and every clock: whatever a cached enforcer answers was the underlying enforcer's answer to that same tuple, now or at an earlier Enforce separated from now by no InvalidateCache/LoadPolicy/ClearPolicy/removal (synced: or addition) of the identical rule and by at most the configured lifetime (served_was_given); the cache key is injective on request tuples (cacheKey_injective); errors pass through, uncacheable requests and a disabled cache bypass. Tie: seeded random histories (and real-time lifetime cases) on the real CachedEnforcer and SyncedCachedEnforcer; every served answer is compared with the model and must be admissible.",
     "C08": "Proved in Lean for every text: blank/comment lines outside a continuation, whitespace around lines, CRLF endings, backslash continuation at a blank and the order of sections with distinct names do not change the configuration read by the mirror of parseBuffer (hence not the definitions, a function of it); a one-line definition is stored in full whatever its length; parsing is total. Tie: every examples/*.conf and generated texts x all layout transformations at every position (incl. padding and splitting past 4 KiB) and 2 000 / 60 000 malformed texts through the real NewModelFromString, assertion by assertion.",
     "C09": "Partial. Proved in Lean for every well-formed pattern of the segment grammar (any number of segments, any literal text free of regex metacharacters) and every path: the mirror of keyMatch2/3/5 (pattern rewriting + matcher for the regex fragment it produces) accepts exactly the paths of the segment semantics, keyMatch4 additionally requires equal values for repeated names, keyGet2/3 return the captured segment exactly when the match succeeds, keyMatch/keyGet are the prefix-before-first-star semantics, ipMatch on dotted quads is CIDR block arithmetic. Go's regexp/net are modelled (not verified): the mirror is tied to them by replaying all patterns up to 2 (quick) / 4 (thorough) segments x all paths up to 4/5 segments, raw patterns at the boundary of the fragment, and random IPv4 inputs through the real functions.",
@@ -63,4 +70,4 @@ NOT_APPLICABLE = {
 }
 
 # properties whose check is complete (theorems proved, correspondence wired) and therefore claimed in MANIFEST.json
-CLAIMED = ["C01", "C02", "C06", "C09"]
+CLAIMED = ["C01", "C02", "C05", "C06", "C09"]
